@@ -9,7 +9,7 @@ From Coq.Strings Require Import String.
 From TS Require Import Bytes State Prog Ops Interp NopSpec StackLemmas ConfigSpec TaprootSpec TapeLemmas AuthSpec
   Builders BuilderSpec TaprootNonNative.
 From TS Require BuilderSourcesProofs.
-From TS Require TaprootFootprints.
+From TS Require TaprootFootprints TaprootFootprintsExact.
 Import ListNotations.
 Local Open Scope nat_scope.
 
@@ -97,6 +97,17 @@ Example C05_nonnative_equivalence_refuted_call_budget :
   vres_of_auth (run_auth_scripts toy_orc (toy_cfg 1) 40 [toy_witness script; nonnative_taproot_lock toy_root x00] []) = VBool false /\
   vres_of_auth (run_auth_scripts toy_orc (toy_cfg 1) 40 [toy_witness script; taproot_lock toy_root x00] []) = VBool true.
 Proof. exact differ_on_call_budget. Qed.
+
+(* In WHAT the two start states differ, exactly (proofs/TaprootFootprintsExact.v; sN / sT as in C05_nonnative_script_path_both_exact): the
+   same code, stack, log and random counter; the same cache except that, with flag 2 on, key X holds the tweak point under the
+   non-native lock; a call count one higher; and a definitions table that is the witness's own plus handle 0 -> the tape holding
+   `push root`.  Nothing else: so every divergence of the two verdicts goes through one of the three footprints shown observable by
+   the computed examples (definition 0: D18, call level: D19, cache key X: D23). *)
+Definition C05_nonnative_start_states_differ_exactly_in := @TaprootFootprintsExact.footprints_exact.
+Definition C05_nonnative_start_states_after_any_witness := @TaprootFootprintsExact.footprints_exact_witness.
+Check C05_nonnative_start_states_differ_exactly_in.
+Print Assumptions C05_nonnative_start_states_differ_exactly_in.
+Print Assumptions C05_nonnative_start_states_after_any_witness.
 
 (* third footprint (finding D23, proofs/TaprootFootprints.v): with flag 2 at its default the non-native lock's OP_DERIVE_POINT
    leaves the tweak point in the cache under the bytes key X, which the committed script can read *)
